@@ -185,3 +185,38 @@ def build_iexpand():
     print('iexpand built')
 if __name__ == '__main__' and len(sys.argv) > 1 and sys.argv[1] == 'iexpand':
     build_iexpand()
+
+def build_lpffull():
+    """corpus/lpffull.img.xz: bigalloc + quota, /lost+found is a single nearly full block inside a 4-block cluster, and a small tree of directories:
+    any repair that reconnects even one inode has to expand /lost+found (first inside the cluster it owns, then into new clusters)"""
+    sc = scratch(); env = tool_env()
+    img = os.path.join(sc, 'lpffull.img'); root = os.path.join(sc, 'lpffull.root')
+    os.makedirs(root + '/d1/d2/d3'); os.makedirs(root + '/e1')
+    pat = lambda n, s=1: bytes(((i * 7 + s) & 0xff) for i in range(n))
+    for i in range(5): open(root + '/d1/f%d' % i, 'wb').write(pat(300 * (i + 1), i))
+    for i in range(3): open(root + '/d1/d2/g%d' % i, 'wb').write(pat(5000, i + 10))
+    for i in range(2): open(root + '/d1/d2/d3/h%d' % i, 'wb').write(b'h%d\n' % i)
+    for i in range(24): open(root + '/e1/%s%02d' % ('e' * 40, i), 'wb').write(b'')
+    open(root + '/top', 'wb').write(pat(9000, 3)); os.symlink('x' * 80, root + '/slow')
+    os.chown(root + '/d1/f1', 1000, 1000); os.chown(root + '/d1/d2', 1000, 70000)
+    rc, out = run([tool('mke2fs'), '-q', '-F', '-t', 'ext4', '-O', '^has_journal,bigalloc,quota,metadata_csum,^resize_inode', '-C', '4096', '-b', '1024', '-I', '256', '-N', '128', '-U', UUID,
+                   '-E', 'hash_seed=' + SEED + ',lazy_itable_init=0', '-d', root, img, '2048'], env=env)
+    assert rc == 0, out
+    cmds = ['rmdir /lost+found', 'mkdir /lost+found'] + ['write /dev/null /lost+found/%s' % (c * n) for c, n in (('A', 250), ('B', 250), ('C', 250), ('D', 180))]
+    script = os.path.join(sc, 'lpffull.dbg'); open(script, 'w').write('\n'.join(cmds) + '\n')
+    rc, out = run([tool('debugfs'), '-w', '-f', script, img], env=env); assert rc == 0, out
+    rc, out = run([tool('e2fsck'), '-fy', img], env=env); assert rc in (0, 1), out          # settles quota usage after the debugfs edits
+    rc, out = run([tool('e2fsck'), '-fn', img], env=env); assert rc == 0, out
+    data = open(img, 'rb').read()
+    from xck.check import check as xcheck
+    v = xcheck(data); assert not v, v
+    rc, out = run([tool('debugfs'), '-R', 'stat /lost+found', img], env=env); print('\n'.join(l for l in out.splitlines() if 'Size:' in l or 'Blockcount' in l or l.startswith('(')))
+    rc, out = run([tool('debugfs'), '-R', 'ls -l /lost+found', img], env=env); print(out[:600])
+    open(os.path.join(VERIF, 'corpus', 'lpffull.img.xz'), 'wb').write(lzma.compress(data, preset=6))
+    print('lpffull built', len(data))
+if __name__ == '__main__' and len(sys.argv) > 1 and sys.argv[1] == 'lpffull':
+    build_lpffull()
+
+if __name__ == '__main__' and len(sys.argv) > 1 and sys.argv[1] == 'casefold':
+    # casefold feature on, but every directory of the standard tree is an ordinary (case-sensitive) one
+    build('casefold', ['-t', 'ext4', '-O', '^has_journal,casefold,metadata_csum,^resize_inode', '-I', '256', '-N', '1024', '-g', '256'], 3072, post=[D])
